@@ -199,6 +199,27 @@ func ruleLookupBothPools(r *Report) {
 		}
 		var next, cur []ssa.Instruction
 		eachInstr(fn, func(in ssa.Instruction) {
+			if c, isCall := in.(*ssa.Call); isCall {
+				// a lookup method of the pool type, called on the pool field's value: it consults that pool
+				// if it performs a map lookup on its receiver
+				if f := c.Call.StaticCallee(); f != nil && f.Blocks != nil && len(c.Call.Args) > 0 {
+					looksUp := false
+					eachInstr(f, func(x ssa.Instruction) {
+						if lk, ok := x.(*ssa.Lookup); ok && len(f.Params) > 0 && derives(lk.X, flowOpts{}, func(v ssa.Value) bool { return v == ssa.Value(f.Params[0]) }) {
+							looksUp = true
+						}
+					})
+					if looksUp {
+						switch fld := fieldOfLoad(c.Call.Args[0]); fld {
+						case t.typ + ".nextPool":
+							next = append(next, c)
+						case t.typ + ".curPool":
+							cur = append(cur, c)
+						}
+					}
+				}
+				return
+			}
 			lk, ok := in.(*ssa.Lookup)
 			if !ok {
 				return
